@@ -62,6 +62,11 @@ def _work(job):
             r, dt = _cli(cmd, int_text, tq)
             if r == 'unsat':
                 return idx, 'unsat', bname + '-intblast', time.time() - t0, None
+    if '(forall ' in text or '(exists ' in text:
+        # quantified obligations: the older z3's E-matching decides these in seconds where 5.1 often gives up
+        r, dt = _cli(['/usr/bin/z3', '-T:%d' % max(10, int(timeout / 3))], text, max(10, int(timeout / 3)))
+        if r == 'unsat':
+            return idx, 'unsat', 'z3-4.8.12', time.time() - t0, None
     try:
         s = z3.Solver()
         s.set('timeout', int(timeout * 1000))
